@@ -143,6 +143,28 @@ both_families! {
 				)*
 			}};
 		}
+		macro_rules! aliased {
+			($T:ty, $kind:expr) => {{
+				if let Ok(v) = <$T>::new(t.a.as_str()) {
+					for k in crate::gen::valid_prefix_cuts(t.a.as_str(), 4, |p| <$T>::new(p).is_ok()) {
+						let w = <$T>::new(&t.a.as_str()[..k]).unwrap();
+						self_views!($T, v, $kind, ["prefix view" => w]);
+					}
+				}
+			}};
+		}
+		match t.kind {
+			Kind::Authority => aliased!(Authority, Kind::Authority),
+			Kind::Segment => aliased!(Segment, Kind::Segment),
+			Kind::Host => aliased!(Host, Kind::Host),
+			Kind::UserInfo => aliased!(UserInfo, Kind::UserInfo),
+			Kind::Query => aliased!(Query, Kind::Query),
+			Kind::Fragment => aliased!(Fragment, Kind::Fragment),
+			Kind::Reference => aliased!(RiRef, Kind::Reference),
+			Kind::Full => aliased!(Ri, Kind::Full),
+			Kind::Path => aliased!(Path, Kind::Path),
+			_ => {}
+		}
 		match t.kind {
 			Kind::Reference => {
 				go!(RiRef);
@@ -193,6 +215,10 @@ impl Prop for C07 {
 
 	fn strategy(_tier: Tier) -> BoxedStrategy<Triple> {
 		triple(true)
+	}
+
+	fn enumerate(_tier: Tier, shard: usize, nshards: usize, f: &mut dyn FnMut(Triple, bool) -> bool) -> Vec<&'static str> {
+		crate::props::cmpgen::long_near_misses(shard, nshards, f)
 	}
 
 	fn check(t: &Triple, cx: &mut Ctx) -> Result<(), Failure> {
